@@ -2,53 +2,64 @@
 
    Token-level kernel (Model/Expr.v): a tree as the parser returns it keeps its ParenExpr nodes; formatting
    prints it (pr) and the re-parse must give the same tree.
-   FULL STATEMENT: forall e, validb e = true -> exists fuel, parse_expr fuel (pr e) = ROk (PE e) [].
-   It is refuted on the faithful model for trees that a program can build but the parser never returns
-   (C19_needs_parser_shape_refuted); for the trees the parser does return the hypotheses noaddb (operands
-   already parenthesised where the grammar needs it, no doubled parentheses) and posokb hold and the theorem
-   applies.  Statements, declarations, layout and comments are explored by checks/c19.py. *)
+   KERNEL STATEMENT (proved in full, C19_format_preserves_parsed_tree): for every token list the model parser
+   accepts, printing the resulting tree and parsing again gives the same tree, up to doubled parentheses
+   "((x))" which the printer prints as "(x)".  It rests on the invariant that every tree the parser returns is
+   well-formed, has its operands at readable positions and needs no further parentheses (C19_parser_image).
+   For arbitrary (synthesised) trees the statement is false (C19_needs_parser_shape_refuted) - that is C22.
+   Statements, declarations, layout and comments are not modelled: explored by checks/c19.py. *)
 From Coq Require Import List ZArith Bool.
 Import ListNotations.
-From V Require Import Base.Prelude Gen.Tokens Model.Expr Proofs.ExprFuel Proofs.Expr.
+From V Require Import Base.Prelude Gen.Tokens Model.Expr Proofs.ExprFuel Proofs.Expr Proofs.ExprImage Proofs.ExprTotal.
 Open Scope Z_scope.
 
+(* every tree the parser returns satisfies the hypotheses of the round trip *)
+Theorem C19_parser_image : forall ts e, parse ts = ROk (PE e) [] ->
+  validb e = true /\ posokb e = true /\ noaddw e = true.
+Proof. intros ts e H. apply shp_inv. exact (parse_image _ ts e H). Qed.
+
+(* format (= print) then parse is the identity on parser results, up to doubled parentheses *)
+Theorem C19_format_preserves_parsed_tree : forall ts e, parse ts = ROk (PE e) [] ->
+  parse (pr e) = ROk (PE (dedup e)) [] /\ strip (dedup e) = strip e.
+Proof. intros ts e H. destruct (parsed_roundtrip_closed ts e H) as (A & _ & B). auto. Qed.
+
+(* a tree that already carries the parentheses the grammar needs, and no doubled ones, is re-read as itself *)
 Theorem C19_print_parse_roundtrip_parsed_partial : forall e,
-  validb e = true -> nolamb e = true -> posokb e = true -> noaddb e = true ->
-  exists fuel, parse_expr fuel (pr e) = ROk (PE e) [].
+  validb e = true -> posokb e = true -> noaddb e = true -> parse (pr e) = ROk (PE e) [].
 Proof.
-  intros e V L K A. destruct (roundtrip e V L K) as [f Hf]. exists f.
-  rewrite (norm_id (sz e)) in Hf; auto.
+  intros e V K A. rewrite <- (norm_id (sz e) e (le_n _) A) at 2. now apply roundtrip_closed.
 Qed.
 
 (* without the shape of parser output the tree changes: the printer inserts parentheses (a ParenExpr appears) *)
 Theorem C19_needs_parser_shape_refuted :
   let e := EBin xgo_MUL (EBin xgo_ADD (EId [97%N]) (EId [98%N])) (EId [99%N]) in
-  validb e = true /\ posokb e = true /\ noaddb e = false /\
-  forall f e', parse_expr f (pr e) = ROk (PE e') [] -> e' <> e.
-Proof.
-  intros e. repeat split; try reflexivity. intros f e' H.
-  assert (X : parse_expr 40 (pr e) = ROk (PE (norm e)) []) by (vm_compute; reflexivity).
-  assert (E : parse_expr f (pr e) = parse_expr 40 (pr e)).
-  { apply parse_expr_stable; [rewrite H|rewrite X]; discriminate. }
-  rewrite H, X in E. injection E as ->. vm_compute. discriminate.
-Qed.
+  validb e = true /\ posokb e = true /\ noaddb e = false /\ exists e', parse (pr e) = ROk (PE e') [] /\ e' <> e.
+Proof. intros e. repeat split; try reflexivity. eexists. split; [vm_compute; reflexivity|vm_compute; discriminate]. Qed.
 
 (* in every case the structure modulo parentheses is kept *)
 Theorem C19_structure_kept : forall e,
-  validb e = true -> nolamb e = true -> posokb e = true ->
-  exists fuel e', parse_expr fuel (pr e) = ROk (PE e') [] /\ strip e' = strip e.
-Proof.
-  intros e V L K. destruct (roundtrip e V L K) as [f Hf]. exists f, (norm e). split; auto. apply (strip_norm (sz e)); auto.
-Qed.
+  validb e = true -> posokb e = true -> exists e', parse (pr e) = ROk (PE e') [] /\ strip e' = strip e.
+Proof. intros e V K. exists (norm e). split; [now apply roundtrip_closed|apply (strip_norm (sz e)); auto]. Qed.
 
 (* non-vacuity: "(a + b) * -c[f(a, b...)]" as the parser returns it *)
 Definition parsed : expr :=
   EBin xgo_MUL (EPar (EBin xgo_ADD (EId [97%N]) (EId [98%N])))
        (EUn xgo_SUB (EIdx (EId [99%N]) (ECall (EId [102%N]) [EId [97%N]; EId [98%N]] true))).
-Example C19_example : validb parsed = true /\ nolamb parsed = true /\ posokb parsed = true /\ noaddb parsed = true /\
+Example C19_example : validb parsed = true /\ posokb parsed = true /\ noaddb parsed = true /\
   parse (pr parsed) = ROk (PE parsed) [].
 Proof. vm_compute. auto 10. Qed.
 
+(* non-vacuity of the kernel statement: tokens of  ((a + b)) * -c ! [ f(x => x, b...) ]  are accepted; the result has a
+   doubled parenthesis, which is all that changes *)
+Definition ex_toks : list tok :=
+  [LP; LP; TId [97%N]; TOp xgo_ADD; TId [98%N]; RP; RP; TOp xgo_MUL; TOp xgo_SUB; TId [99%N]; TOp xgo_NOT; TOp xgo_LBRACK;
+   TId [102%N]; LP; TId [120%N]; TOp xgo_DRARROW; TId [120%N]; COMMA; TId [98%N]; TOp xgo_ELLIPSIS; RP; TOp xgo_RBRACK].
+Example C19_example_parsed : exists e, parse ex_toks = ROk (PE e) [] /\ dedup e <> e /\ parse (pr e) = ROk (PE (dedup e)) [] /\
+  parse (pr (dedup e)) = ROk (PE (dedup e)) [].
+Proof. eexists. vm_compute. repeat split; try reflexivity. discriminate. Qed.
+
+Print Assumptions C19_parser_image.
+Print Assumptions C19_format_preserves_parsed_tree.
 Print Assumptions C19_print_parse_roundtrip_parsed_partial.
 Print Assumptions C19_needs_parser_shape_refuted.
 Print Assumptions C19_structure_kept.
